@@ -248,3 +248,12 @@ type Timeline struct {
 type Instant struct {
 	At time.Time
 }
+
+// Rating is an alias of an alias of an enum declared two packages away.
+type Rating = unit.Rating
+
+type Review struct {
+	Text   string
+	Rating Rating
+	Others []Rating
+}
